@@ -78,9 +78,14 @@ def extra_items(u):
     u.items('option_value.rs', 'impl From<OptionValueString> for Vec<u8>', 'impl TryFrom<Vec<u8>> for OptionValueString', 'impl OptionValueType for OptionValueString')
 
 
-def build(repo):
-    u = Unit(NAME, repo)
-    acc.populate(u, extra_items=extra_items, extra_packet_fns=['set_options_as', 'get_options_as'], extra_spec=SPEC)
+def build(repo, name=NAME, more_items=None, more_spec='', finish=True):
+    u = Unit(name, repo)
+
+    def items(u):
+        extra_items(u)
+        if more_items:
+            more_items(u)
+    acc.populate(u, extra_items=items, extra_packet_fns=['set_options_as', 'get_options_as'], extra_spec=SPEC + more_spec)
     P = 'impl Packet'
     u.rule('derive-drop:OptionValueString', r'#\[derive\(Debug, Clone, PartialEq\)\]\s*pub struct OptionValueString', 'pub struct OptionValueString', 1)
     # ---- text option value
@@ -117,5 +122,6 @@ def build(repo):
                     && call_ensures(<T as TryFrom<Vec<u8>>>::try_from, (c,), #[trigger] r->0@[i])''', props=PROPS)
     for l in ['lemma_text_option_roundtrip', 'lemma_u16_list_roundtrip']:
         u.probe(l)
-    u.finish(common.HEAD)
+    if finish:
+        u.finish(common.HEAD)
     return u
